@@ -304,8 +304,34 @@ func (k *c07k) callEffect(target *ssa.Function) func(ssa.Instruction) bool {
 			return false
 		}
 		g := k.ix.Callee(&ci.Call)
-		return g != nil && (g == an.Orig(target) || k.mustCallFn(g, target))
+		return g != nil && (g == an.Orig(target) || k.matcherLike(g) || k.mustCallFn(g, target))
 	}
+}
+
+// matcherLike: an in-package function that is handed a list of partial signatures and an int and reports a
+// list and a bool without inserting into entries - a variant of the threshold matcher (e.g. one that is given
+// precomputed roots), which evaluates an accepted insertion against the threshold just as well.
+func (k *c07k) matcherLike(g *ssa.Function) bool {
+	if g == nil || g.Parent() != nil || g.Signature == nil {
+		return false
+	}
+	hasList, hasInt := false, false
+	for _, p := range g.Params {
+		if an.TypeName(p.Type()) == "[]core.ParSignedData" {
+			hasList = true
+		}
+		if b, ok := p.Type().Underlying().(*types.Basic); ok && b.Kind() == types.Int {
+			hasInt = true
+		}
+	}
+	res := g.Signature.Results()
+	resList := false
+	for i := 0; i < res.Len(); i++ {
+		if an.TypeName(res.At(i).Type()) == "[]core.ParSignedData" {
+			resList = true
+		}
+	}
+	return hasList && hasInt && resList && len(c07boolResults(g.Signature)) == 1 && !k.growsEntries(g)
 }
 
 // callsOf returns every static call of target among the package functions.
@@ -656,7 +682,12 @@ func (k *c07k) scanHelper(call *ssa.Call, h *ssa.Function, sink ssa.Instruction,
 			}
 			all := c07Ok()
 			for _, r := range clear {
-				all = all.and(c07scanVerdict(ls[i], m, r))
+				v := c07scanVerdict(ls[i], m, r)
+				if v.st != c07ok {
+					// a single-exit helper reaches its return from the "same share found" edge too: decide what it returns there
+					v = c07scanVerdictRet(ls[i], m, r, p.bi, p.want, ei)
+				}
+				all = all.and(v)
 			}
 			if all.st == c07ok {
 				return c07Ok(), true
